@@ -825,6 +825,28 @@ def cache_invariant(run, twin=None):
             with lp.check_changes():
                 second = lp.norm_package('.x', f2)
             fresh = Pj.Project([d]).norm_package('.x', f2)
+            # ... and so is the list of importable children of a package
+            import supp.assistant as As
+            lp2 = Pj.Project([d])
+            hist = []
+            ef = os.path.join(d, 'edited.py')
+
+            def children(project, what='from pkg import '):
+                with project.check_changes():
+                    return As.assist(project, what, (1, len(what)), ef)[1]
+            hist.append(('initial', children(lp2), children(Pj.Project([d]))))
+            open(os.path.join(d, 'pkg', 'newmod.py'), 'w').close()
+            hist.append(('a module file is created', children(lp2), children(Pj.Project([d]))))
+            os.makedirs(os.path.join(d, 'pkg', 'plain'))
+            open(os.path.join(d, 'pkg', 'plain', 'util.py'), 'w').close()
+            hist.append(('a plain directory appears', children(lp2), children(Pj.Project([d]))))
+            open(os.path.join(d, 'pkg', 'plain', '__init__.py'), 'w').close()
+            hist.append(('the directory becomes a package', children(lp2), children(Pj.Project([d]))))
+            hist.append(('same question through import pkg.', children(lp2, 'import pkg.'), children(Pj.Project([d]), 'import pkg.')))
+            bad_h = [h for h in hist if h[1] != h[2]]
+            prove('package-children-follow-the-disk', not bad_h and 'plain' in hist[-1][1] and 'newmod' in hist[-1][1],
+                  clause='the submodule proposals of a long-lived project equal those of a fresh one after every change of the package directory '
+                         '[first difference: %r]' % (bad_h[:1],), path=path)
             prove('relative-names-follow-a-directory-that-became-a-package', (first, second) == ('sub.x', fresh) and fresh == 'pkg.sub.x',
                   clause='after pkg/__init__.py is created a relative name resolves as a fresh project resolves it [%r then %r, fresh %r]' % (first, second, fresh),
                   path=path)
